@@ -12,7 +12,7 @@ def profile(rng, flavour):
     p = {
         "nops": rng.choice([30, 40, 60]), "levels": rng.choice([3, 5, 8]), "maxvol": rng.choice([1, 2, 3, 5]),
         "p_mo": 0.12, "p_off": 0.3, "ttls": [0, 0, 1, 2, 3], "p_cont": 0.8, "p_neg": 0.05,
-        "w": {"sub": 50, "can": 12, "tick": 12, "match": 8, "cont": 4, "run": 4, "probe": 6},
+        "w": {"sub": 50, "can": 12, "tick": 12, "match": 8, "cont": 4, "run": 4, "probe": 6, "jump": 0},
     }
     if flavour == "mo-heavy":
         p.update(p_mo=0.45, maxvol=rng.choice([3, 6]), levels=rng.choice([2, 4]))
@@ -30,16 +30,27 @@ def profile(rng, flavour):
         p.update(nops=rng.choice([25, 40]), levels=9, maxvol=rng.choice([2, 12]), p_mo=0.2, ttls=[0, 0, 0, 4], p_neg=0.0)
         p["w"].update(sub=30, can=40, tick=4, match=6, cont=0, run=0, probe=0)
         p["deep"] = rng.randint(7, 16)
+    elif flavour == "sweep":         # deep books, rounds that touch only the head, then sweeps of several orders; no cancels
+        p.update(nops=rng.choice([30, 45]), levels=12, p_neg=0.0)
+        p["sweep"] = rng.randint(9, 16)
+    elif flavour == "jumpy":         # Market._set_time: several steps at once while orders with different lives rest
+        p.update(ttls=[1, 2, 3, 4, 6, 0], levels=4, nops=rng.choice([40, 60]))
+        p["w"].update(tick=8, jump=10, can=6)
+    elif flavour == "penny":         # prices next to zero: a bid below one tick is accepted at price 0 (a price, not None)
+        p.update(levels=3, p_off=0.6, p_mo=0.25, maxvol=rng.choice([1, 2, 4]))
+        p["penny"] = True
     return p
 
 
 def one_history(seed, flavour="mixed", exact=True):
     rng = random.Random(seed)
     if flavour == "mixed":
-        flavour = rng.choice(["plain", "plain", "mo-heavy", "auction", "ttl", "halt", "deep", "deep"])
+        flavour = rng.choice(["plain", "plain", "mo-heavy", "auction", "ttl", "halt", "deep", "deep", "penny", "jumpy", "sweep"])
     pr = profile(rng, flavour)
     tick, den = rng.choice(EXACT_GRIDS if exact else DECIMAL_GRIDS)
     mid = rng.randint(8, 40)                    # centre of the requested prices, in ticks
+    if pr.get("penny"):
+        mid = rng.choice([1, 2, 2, 3])
     p0 = mid * den + rng.choice([0, 0, 1]) * (den // 2 if exact else 0)
     s = BookSession(tick=tick, den=den, exact=exact, p0=p0)
     cont = rng.random() < pr["p_cont"]
@@ -68,6 +79,9 @@ def _drive(s, rng, pr, ops, wts, cont, mid, den, exact, tick):
                 if rng.random() < 0.2:
                     s.tick()
         cont = True
+    if pr.get("sweep"):
+        _sweeps(s, rng, pr, mid, den, exact, tick)
+        return
     for _ in range(pr["nops"]):
         op = rng.choices(ops, wts)[0]
         follow = False
@@ -78,6 +92,8 @@ def _drive(s, rng, pr, ops, wts, cont, mid, den, exact, tick):
             req = max(1, lvl) * den
             if exact and rng.random() < pr["p_off"]:
                 req += rng.randint(1, den - 1)
+            if pr.get("penny") and lvl <= 0:
+                req = rng.randint(1, den - 1)          # positive, below one tick
             vol = rng.randint(1, pr["maxvol"])
             if pr.get("deep") and rng.random() < 0.6:
                 lvl = mid + (pr["levels"] if buy else -pr["levels"]) * rng.choice([1, 1, 0])   # sweeping price
@@ -91,6 +107,8 @@ def _drive(s, rng, pr, ops, wts, cont, mid, den, exact, tick):
             if not exact and not mo:
                 # decimal grids: on-grid floats as the samples produce them, or off-grid by a fraction of a tick
                 req_float = max(1, lvl) * tick + (rng.choice([0.0, 0.0, 0.3, 0.5, 0.999]) * tick if rng.random() < 0.5 else 0.0)
+                if pr.get("penny") and lvl <= 0:
+                    req_float = rng.choice([0.3, 0.5, 0.999]) * tick
             e = s.submit(buy, mo, req, vol, ttl, neg=neg, req_float=req_float)
             follow = e is not None and neg == ""
         elif op == "can":
@@ -108,6 +126,8 @@ def _drive(s, rng, pr, ops, wts, cont, mid, den, exact, tick):
                          req_float=None if exact else max(1, lvl) * tick)
         elif op == "tick":
             s.tick()
+        elif op == "jump":
+            s.jump(rng.choice([2, 2, 3, 5]))
         elif op == "match":
             if s.m.is_running or rng.random() < 0.5:
                 s.match()
@@ -121,6 +141,42 @@ def _drive(s, rng, pr, ops, wts, cont, mid, den, exact, tick):
             s.probe(acc, t, plural_with_past=rng.random() < 0.5)
         if follow and cont and s.m.is_running:
             s.match()
+
+
+def _sweeps(s, rng, pr, mid, den, exact, tick):
+    """resting orders of volume 2-4 on distinct and repeated levels of both sides (random arrival order); then aggressive
+    orders: most take one unit from the head only, some sweep four and more resting orders"""
+    def sub(buy, lvl, vol, mo=False):
+        lvl = max(1, lvl)
+        return s.submit(buy, mo, lvl * den, vol, 0, req_float=None if exact else lvl * tick)
+    for buy in (True, False):
+        for _ in range(pr["sweep"]):
+            off = rng.randint(1, pr["levels"])
+            sub(buy, mid - off if buy else mid + off, rng.randint(2, 4))
+    for _ in range(pr["nops"] // 3):
+        buy = rng.random() < 0.5                      # the aggressor's side
+        # one or two rounds that take one unit from the head only ...
+        for _ in range(rng.randint(1, 2)):
+            sub(buy, mid + 1 if buy else mid - 1, 1, mo=rng.random() < 0.15)
+            if s.m.is_running:
+                s.match()
+        # ... sometimes a small one, then a sweep through several resting orders of that side
+        if rng.random() < 0.3:
+            sub(buy, mid + 2 if buy else mid - 2, rng.randint(2, 5))
+            if s.m.is_running:
+                s.match()
+        depth = rng.randint(4, pr["levels"])
+        sub(buy, mid + depth if buy else mid - depth, rng.randint(8, 30), mo=rng.random() < 0.1)
+        if s.m.is_running:
+            s.match()
+        if rng.random() < 0.2:
+            s.tick()
+        # the swept side is refilled at random levels (random arrival order decides the heap layout)
+        for _ in range(rng.randint(3, 8)):
+            off = rng.randint(1, pr["levels"])
+            sub(not buy, mid + off if buy else mid - off, rng.randint(2, 4))
+            if s.m.is_running:
+                s.match()
 
 
 def generate(n, seed, exact_share=0.8, flavour="mixed"):
